@@ -12,9 +12,9 @@ git diff > $out/patch.diff
 cp demo.py $out/demo.py 2>/dev/null
 echo "== patch: $(wc -l < $out/patch.diff) lines, files: $(git diff --name-only | tr '\n' ' ')"
 echo "== demo with change:"; timeout 600 /venv/bin/python demo.py > $out/demo_with.txt 2>&1; echo "exit=$?"; tail -3 $out/demo_with.txt | cut -c1-200
-git stash -q
+git apply -R $out/patch.diff     # (git stash is shared between worktrees: not used)
 echo "== demo without change:"; timeout 600 /venv/bin/python demo.py > $out/demo_without.txt 2>&1; echo "exit=$?"; tail -2 $out/demo_without.txt | cut -c1-200
-git stash pop -q
+git apply $out/patch.diff
 if [ "$SKIP_TESTS" != "1" ]; then
   echo "== test-suite with change:"; timeout 1800 /venv/bin/python -m pytest -q -p no:cacheprovider --timeout=900 mpmath > $out/tests.txt 2>&1; echo "exit=$?"; tail -1 $out/tests.txt
 fi
